@@ -8,7 +8,7 @@ ACK = b'HTTP/1.1 200 Connection established\r\n\r\n'
 CANARY_RESP = b'HTTP/1.1 200 OK\r\nContent-Length: 9\r\n\r\ncanary-ok'
 R_A = b'HTTP/1.1 200 OK\r\nContent-Length: 5\r\n\r\nadv-A'
 R_UP = b'HTTP/1.1 200 OK\r\nContent-Length: 6\r\n\r\nup1-ok'
-ADV_ADDRS = {('10.0.0.9', 80), ('10.0.0.9', 443), ('10.0.0.8', 80)}
+ADV_ADDRS = {('10.0.0.9', 80), ('10.0.0.9', 443), ('10.0.0.8', 80), ('10.0.0.7', 80)}
 _REF = {}
 
 
@@ -22,7 +22,8 @@ def canary_script(path):
 
 def flags_for(mode):
     return (['--threadless', '--enable-web-server', '--enable-reverse-proxy'],
-            {'plugins': [plugins.web_stamp(), plugins.reverse([(r'/r1$', [b'http://up1.test/p1'])])]})
+            {'plugins': [plugins.web_stamp(), plugins.reverse([(r'/r1$', [b'http://up1.test/p1']),
+                                                               (r'/r2$', [b'http://up2.test/p2'])], name='VerifRevC05')]})
 
 
 def adversaries(tier):
@@ -131,7 +132,7 @@ def scenarios(tier):
                     origins=og, dns=d, net=net, kinds='AF' if tier == 'quick' else 'AFO', horizon=600,
                     features={'mode': mode, 'role': role, 'adversary': name, 'canary_offset': str(off),
                               '_fault_clients': {'c0'}, '_fault_addrs': ADV_ADDRS}))
-    return out + tls_front_scenarios(tier) + idle_scenarios(tier)
+    return out + tls_front_scenarios(tier) + idle_scenarios(tier) + neighbour_scenarios(tier)
 
 
 def tls_front_scenarios(tier):
@@ -153,6 +154,49 @@ def tls_front_scenarios(tier):
                                 mode=mode, clients=clients, kinds='', horizon=300,
                                 features={'mode': mode, 'role': 'tls_front', 'adversary': name, 'canary_offset': 'none',
                                           '_no_canary': True}))
+    return out
+
+
+def neighbour_scenarios(tier):
+    """Descriptor-number traffic between neighbours: the adversary is a perfectly polite keep-alive
+    connection whose life merely frees and re-creates upstream sockets (reverse proxy switching
+    upstreams, forward keep-alive whose upstream closes between requests) while the canary opens ITS
+    upstream at every relative offset -- in particular in the very loop iteration in which a number
+    is freed.  Both acceptance orders."""
+    out = []
+    rev1 = b'GET /r1 HTTP/1.1\r\nHost: front\r\n\r\n'
+    rev2 = b'GET /r2 HTTP/1.1\r\nHost: front\r\n\r\n'
+    fwd = b'GET http://adv.test/a HTTP/1.1\r\nHost: adv.test\r\n\r\n'
+    advs = [
+        ('rev-switch-upstream', [('send', rev1), ('wait_recv', len(R_UP)), ('send', rev2), ('wait_recv', 2 * len(R_UP)),
+                                 ('wait_idle',), ('close',)]),
+        ('rev-switch-back', [('send', rev1), ('wait_recv', len(R_UP)), ('send', rev2), ('wait_recv', 2 * len(R_UP)),
+                             ('send', rev1), ('wait_recv', 3 * len(R_UP)), ('wait_idle',), ('close',)]),
+        ('fwd-upstream-closes-between', [('send', fwd), ('wait_recv', len(R_A)), ('wait_turns', 8), ('send', fwd),
+                                         ('wait_idle',), ('close',)]),
+    ]
+    origins = {('10.0.0.8', 80): lambda: HttpOrigin([[R_UP], [R_UP], [R_UP]]),
+               ('10.0.0.7', 80): lambda: HttpOrigin([[R_UP], [R_UP], [R_UP]]),
+               ('10.0.0.9', 80): lambda: HttpOrigin([[R_A]], then={0: 'close'}),
+               ('10.0.0.1', 80): lambda: HttpOrigin([[CANARY_RESP]])}
+    dns = {'adv.test': '10.0.0.9', 'up1.test': '10.0.0.8', 'up2.test': '10.0.0.7', 'h.test': '10.0.0.1'}
+    offsets = range(1, 15) if tier == 'quick' else range(1, 22)
+    for mode in ('local', 'remote'):
+        fa, fo = flags_for(mode)
+        for name, script in advs:
+            for first in ('canary', 'adversary'):
+                for k in offsets:
+                    can = dict(script=[('wait_turns', k)] + canary_script(b'c'), start_turn=0 if first == 'canary' else 1)
+                    adv = dict(script=script, start_turn=1 if first == 'canary' else 0)
+                    clients = [can, adv] if first == 'canary' else [adv, can]
+                    ci = 0 if first == 'canary' else 1
+                    clients.append(dict(script=canary_script(b't'), start_turn='idle'))
+                    out.append(Scenario('%s/%s/%s-first/canary-sends@%d' % (mode, name, first, k), fa, flags_opts=fo, mode=mode,
+                                        clients=clients, origins=origins, dns=dns, kinds='E' if tier == 'quick' else 'AE',
+                                        horizon=600,
+                                        features={'mode': mode, 'role': 'neighbour', 'adversary': name,
+                                                  'canary_offset': 'swept', '_canaries': [ci, 2],
+                                                  '_bound': 1}))
     return out
 
 
